@@ -1,10 +1,12 @@
 import CffiVerif.Model.Search
+import CffiVerif.Model.RealizeName
 import CffiVerif.Model.Proto
 open CffiVerif CffiVerif.Search CffiVerif.Proto
 
 /-- `table <hex> …` installs a name table; `search <hex>` runs `search_sorted`
 (answer: index or -1); `pycmp a b` (space separated code points given as
-two hex UTF-8 strings of ASCII) compares as Python does. -/
+two hex UTF-8 strings of ASCII) compares as Python does; `realize <prefix> <tag>` /
+`unrealize <name>` run the models of `_realize_name` / `_unrealize_name` (answer: hex of `target`). -/
 def step (tbl : Array CStr) : List String → Array CStr × String
   | "table" :: names =>
     match names.mapM hexBytes? with
@@ -21,6 +23,14 @@ def step (tbl : Array CStr) : List String → Array CStr × String
     | some x, some y => (tbl, match lexCmp x y with
         | .lt => "ok lt" | .eq => "ok eq" | .gt => "ok gt")
     | _, _ => (tbl, "bad-op")
+  | ["realize", p, a] =>
+    match hexBytes? (if p == "-" then "" else p), hexBytes? (if a == "-" then "" else a) with
+    | some x, some y => (tbl, s!"ok {bytesHex (RealizeName.realizeName x y)}")
+    | _, _ => (tbl, "bad-op")
+  | ["unrealize", a] =>
+    match hexBytes? (if a == "-" then "" else a) with
+    | some y => (tbl, s!"ok {bytesHex (RealizeName.unrealizeName y)}")
+    | none => (tbl, "bad-op")
   | _ => (tbl, "bad-op")
 
 def main : IO Unit := runDriver (#[] : Array CStr) step
